@@ -120,6 +120,12 @@ def build(vrs_path, out_dir, canary=True, vacuity=False):
                     _scan_assumptions(seg['text'], reg.name, 0, res.assumptions)
                 elif seg['kind'] == 'rw':
                     _scan_assumptions(''.join(mirror.GHOST_BLOCK.findall(seg['text'])), reg.name, 0, res.assumptions)
+                    # hand-declared rewrites (INST / MANUAL / R20 / RSORT: no generator re-derives them from the rule text) are where the verified
+                    # text deviates from /repo by the author's word: each one is listed as an assumption
+                    rule = seg.get('rule', '')
+                    if rule.split()[0:1] and rule.split()[0] in ('INST', 'MANUAL', 'R20', 'RSORT'):
+                        res.assumptions.append({'kind': 'hand-declared rewrite', 'where': '%s:%s' % (os.path.basename(vrs_path), seg.get('lineno', 0)),
+                                                'text': ('%s [%s]: %s  ->  %s' % (rule[:120], reg.name.split(' :: ')[-1], ' '.join(seg.get('orig', '').split())[:110], ' '.join(mirror.GHOST_BLOCK.sub('', seg.get('text', '')).split())[:110]))})
             if vacuity and reg.path.split()[-2] == 'fn':
                 woven = _insert_vacuity_probe(woven)
             if not woven.endswith('\n'):
